@@ -181,6 +181,25 @@ func c17EndToEnd(j *Job) {
 		}
 	}
 	extraMon = monOpts{}
+	// a legacy Config value after the option functions does not undo an explicit choice
+	for opt := 0; opt < 4; opt++ {
+		for ri, r := range []struct{ a, b bool }{{false, true}, {true, false}} {
+			ha := epCfg{Server: r.a, NoInterleave: opt&1 != 0, LegacyLast: true, RTOMax: 4000, InitTSN: 0xFFFFFFFE, MTU: 228}
+			hb := epCfg{Server: r.b, NoInterleave: opt&2 != 0, RTOMax: 4000, InitTSN: 5, MTU: 228}
+			j.Explore(fmt.Sprintf("neg/legacy-last/%d/opt%d", ri, opt), hsScenario(&hsSpec{A: ha, B: hb}), Budget{}, nil)
+		}
+	}
+	// tokens exchanged out of band: what the token offered decides, whatever option the association
+	// itself was created with afterwards (both sides frame their data alike)
+	for _, assocIL := range [][2]bool{{false, true}, {true, false}, {false, false}} {
+		for _, tokIL := range [][2]bool{{true, true}, {true, false}} {
+			mk := func(i int, il bool) epCfg {
+				return epCfg{NoInterleave: !il, RTOMax: 4000, InitTSN: []uint32{0xFFFFFFFE, 5}[i], MTU: 228}
+			}
+			tok := [2]epCfg{mk(0, tokIL[0]), mk(1, tokIL[1])}
+			j.Explore(fmt.Sprintf("neg/snap/assoc%v/tok%v", assocIL, tokIL), hsScenario(&hsSpec{A: mk(0, assocIL[0]), B: mk(1, assocIL[1]), SNAP: true, SnapTok: &tok}), Budget{}, nil)
+		}
+	}
 	// wrong-kind matrix
 	for _, l := range []bool{false, true} {
 		for _, p := range []bool{false, true} {
